@@ -55,3 +55,22 @@ def check_class_level_state(ck: Checker, rule: str, classes: List[ClassInfo], wh
         else:
             ck.ok(rule, None, None, f"{ci.name}: no class-level mutable container is mutated through instances", construct=f"class {ci.name} / shared state", nontrivial=bool(ci.attrs))
     return n
+
+
+def check_process_wide_memo(ck: Checker, rule: str, modules: List[str], why: str) -> int:
+    """No module-level function or method of the given modules is memoised for the life of the process
+    (`functools.cache` / `lru_cache`): what it remembers (a directory exists, an object was checked, ...) describes
+    the filesystem at one moment and outlives the operation that established it.  (Per-call memos - a cached
+    closure created inside the function that uses it - are fine; the baseline has no process-wide one.)"""
+    n = 0
+    for mname in modules:
+        mod = ck.prog.module(mname)
+        for fn in mod.funcs.values():
+            if fn.parent is not None:
+                continue  # closures: their memo dies with the enclosing call
+            n += 1
+            for d in getattr(fn.node, "decorator_list", []):
+                t = norm(d.func) if isinstance(d, ast.Call) else norm(d)
+                if t.split(".")[-1] in ("cache", "lru_cache", "memoize", "memoized"):
+                    ck.fail(rule, fn, fn.node, f"`{fn.qual}` is memoised for the whole process (@{t}): {why}", construct=f"@{t} def {fn.qual} / process-wide memo")
+    return n
